@@ -19,6 +19,11 @@ RULE = (
     "to the default run, on both builds. Reach: per option, runs in which it produced diagnostic output / profiler "
     "entries. distinct = (program hash, option subset); non-trivial = at least 2 task instances and 1 flush."
 )
+RULE += (
+    " One program in twelve makes a synchronous asynq call that trips a lowered MAX_TASK_STACK_SIZE and is "
+    "recovered from by the caller; one in twelve runs with the scheduler's own flush() call raising (the "
+    "after-flush event must still fire under every option)."
+)
 ASSUMPTIONS = [
     "programs whose default-option trace is not reproducible (priority ties) are skipped and counted",
     "MAX_TASK_STACK_SIZE and the truncation/limit options are not boolean switches and are left at their defaults",
